@@ -71,12 +71,16 @@ def series_stream(rng, thorough, streams, viol, samples):
             elif c["scale"] == "linear":
                 lin_terms.append(f"({Q.fhex(0.0)}, {Q.fhex(tmax)}, {c['npoints']}%nat, [" + "; ".join(Q.fhex(t) for t in times) + "])")
             else:
+                # numpy.logspace = 10 ** linspace(log10(0.1), log10(tmax)): the exponents follow the linear-grid model
+                # (i*step + start in binary64, last = stop), the power is libm's (2 ulp allowed)
                 lo, hi = math.log10(0.1), math.log10(tmax)
+                n = c["npoints"]
+                step = (hi - lo) / (n - 1)
                 for i, t in enumerate(times):
-                    e = Fraction(lo) + (Fraction(hi) - Fraction(lo)) * i / (c["npoints"] - 1)
-                    want = 10 ** float(e)
-                    if abs(t - want) > 8 * math.ulp(want):
-                        bad.append((c, f"log grid point {i} is {t!r}, expected about {want!r}")); break
+                    y = hi if i == n - 1 else i * step + lo
+                    want = 10.0 ** y
+                    if abs(t - want) > 2 * math.ulp(want):
+                        bad.append((c, f"log grid point {i} is {t!r}, expected 10**{y!r} = {want!r}")); break
         if "plot" in r:
             p = r["plot"]
             if p["ylabel"] != ylabel(c["kind"]) or p["xunits"] != c["tunit"]:
